@@ -388,7 +388,21 @@ impl Check for C15 {
         ctx.event_u64(t.events.len() as u64);
         for e in &t.events {
             if let Ev::Reply { text, .. } = e {
-                ctx.event(&text[..std::cmp::min(24, text.len())]);
+                // stream ids come from a process-global counter: canonicalise digits in the log
+                let mut t = String::new();
+                for c in text.chars() {
+                    if c.is_ascii_digit() {
+                        if !t.ends_with('#') {
+                            t.push('#');
+                        }
+                    } else {
+                        t.push(c);
+                    }
+                    if t.len() >= 24 {
+                        break;
+                    }
+                }
+                ctx.event(&t);
             }
         }
         ctx.probe_n("server_loop_iterations", t.server_iterations as u64);
